@@ -203,6 +203,9 @@ func (sc *Scenario) Exec() (*Run, error) {
 	var sched *Sched
 	afterStep := func(r StepResult) error {
 		run.Steps = append(run.Steps, r)
+		if r.Outcome == "OHung" {
+			return fmt.Errorf("%s", w.StepAnomalies[len(w.StepAnomalies)-1])
+		}
 		mu.Lock()
 		if arm.tid == r.Tid {
 			arm.live = false
